@@ -114,40 +114,7 @@ func runC07(c *Ctx) {
 		c.Check(len(missing) == 0, "exhaustive:lib.Result."+f.Name(), rEx, "handled by all five siblings", "not handled by: "+strings.Join(missing, ", "), c.P.Pos(f.Pos()))
 	}
 
-	// gob: encoder/decoder are the plain gob ones over *Result
-	const rGob = "the gob codec encodes and decodes the Result value itself, one Encode/Decode per call"
-	for _, w := range []struct{ fn, call string }{{"NewEncoder", "(*encoding/gob.Encoder).Encode"}, {"NewDecoder", "(*encoding/gob.Decoder).Decode"}} {
-		f := c.P.Func("lib", w.fn)
-		key := "gob-direct:lib." + w.fn
-		if f == nil || len(f.AnonFuncs) != 1 {
-			c.Undecided(key, rGob, "closure not found")
-			continue
-		}
-		cl := f.AnonFuncs[0]
-		calls := callsNamed(cl, w.call)
-		ok := len(calls) == 1
-		if ok {
-			call := calls[0].(*ssa.Call)
-			mi, isMI := call.Call.Args[1].(*ssa.MakeInterface)
-			ok = isMI && mi.X == ssa.Value(cl.Params[0])
-			// returned directly
-			okRet := false
-			eachInstr(cl, func(i ssa.Instruction) {
-				if r, isR := i.(*ssa.Return); isR && r.Results[0] == ssa.Value(call) {
-					okRet = true
-				}
-			})
-			ok = ok && okRet
-			n := 0
-			eachInstr(cl, func(i ssa.Instruction) {
-				if _, isC := i.(ssa.CallInstruction); isC {
-					n++
-				}
-			})
-			ok = ok && n == 1
-		}
-		c.Check(ok, key, rGob, "one "+w.call+"(r), result returned", "the gob closure does more than encode/decode its argument (e.g. a retained scratch value)", c.fnAt(cl))
-	}
+	gobDirect(c)
 }
 
 // jsonTables checks key/tag/method agreement for an easyjson alias type.
